@@ -59,6 +59,9 @@ pub const FAMILIES: &[(&[M], &[M])] = &[
     (&[M::RcProv], &[M::RcReq]),
     (&[M::ArcProv], &[M::ArcReq]),
     (&[M::PinProv], &[M::PinReq]),
+    (&[M::V2Prov], &[M::V2Req]),
+    (&[M::Rc2Prov], &[M::Rc2Req]),
+    (&[M::Arc2Prov], &[M::Arc2Req]),
 ];
 
 pub fn gen_c15(base_seed: u64, batch: &str, run: u64, rng: &mut Rng) -> Scenario {
@@ -104,7 +107,8 @@ pub fn gen_c15(base_seed: u64, batch: &str, run: u64, rng: &mut Rng) -> Scenario
         if provided.contains(m) {
             // a default body can only call the required methods of its own trait
             let own: Vec<M> = FAMILIES.iter().filter(|f| f.0.contains(m)).flat_map(|f| f.1.iter().copied()).collect();
-            for _ in 0..rng.usize(4) {
+            let max = if *m == M::V2Prov { 2 } else { 4 };
+            for _ in 0..rng.usize(max) {
                 prog.calls.push((*rng.pick(&own), rng.below(4) as u8, rng.below(4) as u8));
             }
         }
@@ -148,7 +152,7 @@ pub fn gen_c15(base_seed: u64, batch: &str, run: u64, rng: &mut Rng) -> Scenario
                 None
             };
             let consuming = matches!(m.info().recv, Recv::Val | Recv::Rc | Recv::Arc);
-            if provided.contains(&m) && consuming && !(keep && m.info().recv != Recv::Val) {
+            if consuming && !(keep && m.info().recv != Recv::Val) {
                 // the instance does not come back: only as the last operation
                 if i + 1 < n && rng.chance(2, 3) {
                     continue;
@@ -246,10 +250,15 @@ pub fn check_c15(scn: &Scenario) -> Checked {
                 for cid in &p.nested {
                     let n = &res.log.calls[*cid as usize];
                     pairs.push((ops_b.len(), *cid));
-                    ops_b.push(Op::Call { slot: *slot, m: n.m, x: n.x, y: n.y, catch: true, fault: None, keep: false });
+                    // (inside a body an Rc/Arc receiver is a clone of the handle: keep the instance)
+                    ops_b.push(Op::Call { slot: *slot, m: n.m, x: n.x, y: n.y, catch: true, fault: None, keep: matches!(n.m.info().recv, Recv::Rc | Recv::Arc) });
                 }
                 let consumes = matches!(m.info().recv, Recv::Val) || (matches!(m.info().recv, Recv::Rc | Recv::Arc) && !*keep);
-                if consumes {
+                // a by-value nested call took the instance along: it is verified at the end of that call
+                let taken_along = p.nested.iter().any(|cid| res.log.calls[*cid as usize].m == M::V2Req);
+                if consumes && taken_along {
+                    consuming_at = None;
+                } else if consumes {
                     consuming_finished = p.finished;
                     consuming_at = Some((ops_b.len(), c.id));
                     ops_b.push(Op::Drop { slot: *slot });
@@ -281,7 +290,21 @@ pub fn check_c15(scn: &Scenario) -> Checked {
         let a = &res.log.calls[*cid as usize];
         let da = describe_call(&res.log, a);
         let db = top_call_of(&res_b, 0, *bi as u16).map(|c| describe_call(&res_b.log, c)).unwrap_or(Desc::Skipped);
-        if da != db {
+        // a by-value call ends with the verification of the instance it consumed: expectations on the
+        // provided methods themselves (which only the delegated run matched) are not part of the
+        // comparison
+        let by_value_end = |d: &Desc| match d {
+            Desc::MockPanic(m) if matches!(a.m.info().recv, Recv::Val | Recv::Rc | Recv::Arc) => Some(filter_lines(m, &provided_all)),
+            _ => None,
+        };
+        let same = da == db
+            || match (by_value_end(&da), by_value_end(&db)) {
+                (Some(x), Some(y)) => x == y,
+                (None, Some(y)) => y.is_empty() && !matches!(da, Desc::MockPanic(_)),
+                (Some(x), None) => x.is_empty() && !matches!(db, Desc::MockPanic(_)),
+                (None, None) => false,
+            };
+        if !same {
             violations.push(v(
                 "C15",
                 "delegated-call-evaluated-like-a-direct-call",
